@@ -108,6 +108,9 @@ type Conn struct {
 	// state then produce identical bytes (needed for state merging); otherwise a per-connection counter is used.
 	Det bool
 
+	// Acked is set once a commit has returned success to the application (journal finalised / WAL write lock released after a commit).
+	Acked bool
+
 	Steps  int
 	Trace  []string
 	KeepTrace bool
@@ -122,7 +125,8 @@ type Conn struct {
 	// lock state as SQLite tracks it
 	eLock int // 0 none 1 shared 2 reserved 3 pending 4 exclusive
 
-	walState walConn
+	walState      walConn
+	ackOnEndWrite bool
 }
 
 // NewConn returns a connection. pageSize is used when the database does not exist yet.
@@ -665,6 +669,7 @@ func (c *Conn) RunRTx(tx RTx, cur *oracle.Image) (res RTxResult) {
 	}
 	res.Committed = true
 	res.Intended = next
+	c.Acked = true
 	// Shrink: the file is truncated after the journal is finalised.
 	if newSize < origSize {
 		c.step(fmt.Sprintf("db truncate to %d pages", newSize))
